@@ -223,6 +223,20 @@ def rand_shape(rng, max_rank=3):
     return s
 
 
+def unit_axis_variants(shape):
+    """shapes with the same cells that differ from `shape` only by length-1 axes, plus broadcast-compatible ones"""
+    core = tuple(d for d in shape if d != 1) or (1,)
+    out = set()
+    for i in range(len(core) + 1):
+        out.add(core[:i] + (1,) + core[i:])
+    out.add(core)
+    out.add((1,))
+    if len(core) == 1:
+        out.add((core[0], 1)); out.add((1, core[0])); out.add((core[0], core[0]))
+    out.discard(tuple(shape))
+    return sorted(out)
+
+
 def rand_mask(rng, n, style=None):
     style = style or rng.choice(["none", "none", "one", "some", "some", "most"])
     if style == "none":
@@ -386,8 +400,9 @@ def gen_inputs(rng, cmd, shape=None, n=None, style="valid", dtypes=None, mask_st
         else:
             dt = dtypes[i] if dtypes else (int if rng.random() < 0.4 else float)
             arrs.append(rand_array(rng, shape, dt, None, mask_style))
-    if style == "wild" and how != "one" and n >= 2 and rng.random() < 0.08:
-        other = rand_shape(rng)
+    if style == "wild" and how != "one" and n >= 2 and rng.random() < 0.12:
+        # a different shape: unrelated, or differing only by length-1 axes (numpy would broadcast it silently)
+        other = rand_shape(rng) if rng.random() < 0.4 else rng.choice(unit_axis_variants(shape))
         arrs[rng.randrange(n)] = rand_array(rng, other, float, FUZZY_LATTICE if fuzzy_in else None)
     if style == "wild" and how == "list" and rng.random() < 0.03:
         arrs = []
@@ -462,7 +477,7 @@ def gen_case(rng, cmd, style="valid", **kw):
     return Case(cmd, gen_params(rng, cmd, inputs, style), inputs)
 
 
-def run_stream(ctx, model, cases, stream, tol=common.TOL, on_result=None):
+def run_stream(ctx, model, cases, stream, tol=common.TOL, on_result=None, rerun=True):
     """runs cases on implementation and model, records disagreements; calls on_result(case, out, answer)"""
     outs = []
     kept = []
@@ -485,9 +500,32 @@ def run_stream(ctx, model, cases, stream, tol=common.TOL, on_result=None):
             d = compare(out, ans, tol)
             if d:
                 ctx.disagree(stream, c.describe(), impl_summary(out), ans + " :: " + d)
+        if rerun and out["status"] == "ok":
+            # the same command over the very same input objects again (no copies in between) must give the same result:
+            # a body that writes into an input array corrupts every later consumer of that input
+            first = run_impl(c, copy_inputs=False)
+            second = run_impl(c, copy_inputs=False)
+            ctx.count("rerun_twins")
+            d = _same(first, second)
+            if d:
+                ctx.fail("%s: executing the command a second time over the same input arrays gives a different result (%s) - "
+                         "the first execution modified its inputs" % (c.cmd, d), c.describe())
         if on_result:
             on_result(c, out, ans)
     return kept, outs, answers
+
+
+def _same(o1, o2, tol=common.TOL):
+    if o1["status"] != o2["status"]:
+        return "first %s, then %s" % (impl_summary(o1)[:60], impl_summary(o2)[:60])
+    if o1["status"] == "err":
+        return None if o1["cls"] == o2["cls"] else "%s then %s" % (o1["cls"], o2["cls"])
+    if o1["vis"][:3] != o2["vis"][:3]:
+        return "%r then %r" % (o1["vis"][:3], o2["vis"][:3])
+    for i, (a, b) in enumerate(zip(o1["vis"][3], o2["vis"][3])):
+        if (a is None) != (b is None) or (a is not None and abs(a - b) > tol * max(1.0, abs(b))):
+            return "cell %d: %r then %r" % (i, a, b)
+    return None
 
 
 def case_from_line(line):
